@@ -14,7 +14,7 @@ import (
 func init() {
 	register("C19", &propMeta{
 		Level: "other",
-		Explanation: "Structural clauses of debugger transparency: R19.1 the functions the execution loop calls when a debugger is attached, and the session API, store only into debugger-owned state (SSA store/map-update targets), with the one frozen exception of forcing the lazy generation of exec closures; " +
+		Explanation: "Structural clauses of debugger transparency: R19.1 the functions the execution loop calls when a debugger is attached, and the session API, store only into debugger-owned state (SSA store/map-update targets), with the one frozen exception of the stores into node.exec made by the lazy generation of exec closures (which the breakpoint entry points reach only through the generation pass genRun since D94: R19.13); " +
 			"R19.2 the plain and the debugger execution loops are siblings: both gated by the run id, one bltn call per iteration fed back into the loop variable, both stop on nil; R19.3 in (*Debugger).exec every mode-dependent 'keep running' return is dominated by the breakpoint test; " +
 			"R19.4 the session goroutine registers the terminate event by defer before it starts executing; R19.5 the walk placing breakpoints never prunes a subtree; " +
 			"R19.6 the cancellable channel-operation variants (the ones a debugged program runs, since the debugger executes through ExecuteWithContext) store the same ok status as reflect reports. Equality of outputs under arbitrary stepping sequences and event ordering are not decided.",
